@@ -2,7 +2,8 @@
 //   c10 gen    -seed S -n N -o cases          : table-level cases for the verif-tagged test driver in cmd/mp4ff-crop
 //   c10 join   -cases F -res R                : case lines + results of the real routines, for the model driver
 //   c10 search -cases F -res R                : the prefix property on the results (own expansion), FAIL/EVALS lines
-//   c10 files  -seed S -n N -bin B -tmp D     : synthesized progressive files through the built mp4ff-crop binary
+//   c10 files  -seed S -n N -bin B -tmp D [-o cases] : synthesized progressive files through the built mp4ff-crop binary;
+//                                               -o: every run (+ a malformed stream) as `tool` case lines for the model driver
 package main
 
 import (
@@ -448,7 +449,7 @@ func main() {
 	case "search":
 		search(*cases, *res)
 	case "files":
-		files(*seed, *n, *bin, *tmp)
+		files(*seed, *n, *bin, *tmp, *o)
 	default:
 		os.Exit(2)
 	}
